@@ -24,6 +24,14 @@ func genC14(t *rapid.T) RoutingCase {
 	if c.Router == model.JSR311 {
 		cfg.Tail = false // the statement exempts RouterJSR311 tail wildcards
 	}
+	withOptionsFilter := rapid.IntRange(0, 3).Draw(t, "optionsfilter") == 0
+	if withOptionsFilter {
+		// with Container.OPTIONSFilter installed the Allow header of an OPTIONS request is a
+		// framework decision too; the filter's own matching is only specified on the fragment
+		// both engines support (C17), so these tables stay inside it
+		cfg = gen.Common()
+		c.Extra = map[string]int64{"options_filter": 1}
+	}
 	if thorough() {
 		cfg.MaxServices, cfg.MaxRoutes = 6, 12
 	}
@@ -38,13 +46,19 @@ func genC14(t *rapid.T) RoutingCase {
 	if !tableHasMuxConflict(c.Table) && rapid.Bool().Draw(t, "viaServe") {
 		c.Via = harness.ViaServe
 	}
+	if withOptionsFilter {
+		n := len(c.Reqs)
+		for i := 0; i < n; i++ {
+			c.Reqs = append(c.Reqs, model.ReqSpec{Method: "OPTIONS", Path: c.Reqs[i].Path})
+		}
+	}
 	return c
 }
 
 func checkC14(c RoutingCase) (vs []*Violation) {
 	st := stats.For("C14", "TestC14")
 	rec := harness.NewRecorder()
-	ct, p := buildWith(c.Table, &harness.Options{Router: c.Router}, rec, c.Via != harness.ViaServe)
+	ct, p := buildWith(c.Table, &harness.Options{Router: c.Router, OptionsFilter: c.Extra["options_filter"] == 1}, rec, c.Via != harness.ViaServe)
 	if p != nil {
 		return []*Violation{viol("", "building the table panicked: %v", p)}
 	}
@@ -64,8 +78,11 @@ func checkC14(c RoutingCase) (vs []*Violation) {
 			continue
 		}
 		labels = append(labels, "outcome_"+outcomeClass(a))
-		if len(a.Ran) > 0 || a.Status == 405 {
+		if len(a.Ran) > 0 || a.Status == 405 || (c.Extra["options_filter"] == 1 && req.Method == "OPTIONS" && len(a.Allow) > 0) {
 			nontrivial = true
+		}
+		if c.Extra["options_filter"] == 1 && req.Method == "OPTIONS" {
+			labels = append(labels, "options_filter_answer")
 		}
 		if a.Key() != b.Key() {
 			vs = append(vs, viol("", "%s router, via %s: %s %q -> {%s} but %q -> {%s}", c.Router, c.Via, req.Method, req.Path, a.Key(), slash.Path, b.Key()))
